@@ -1043,3 +1043,185 @@ func ruleR32(p *Prog) []Ob {
 	}
 	return obs
 }
+
+// ---------------------------------------------------------------------------
+// R11 L4 / L6 and R16c
+
+// publishLoopObligations (L4): in the head writer's publish loop every record's index item is written
+// to the index file in the same iteration as the record, and the batch is appended to the in-memory
+// index once, after the loop (so that readers see a batch entirely or not at all).
+func (p *Prog) publishLoopObligations() []Ob {
+	var obs []Ob
+	r := p.R
+	// the in-memory append: the HeadIndex method that stores the items field
+	appendFn := map[*ssa.Function]bool{}
+	for _, fn := range p.Funcs {
+		if recvNamed(fn) != r.HeadIndex {
+			continue
+		}
+		for _, b := range fn.Blocks {
+			for _, ins := range b.Instrs {
+				if st, ok := ins.(*ssa.Store); ok {
+					if fa, ok := st.Addr.(*ssa.FieldAddr); ok && fieldVarOfAddr(fa) == r.HIItems && !underConstruction(fa) {
+						appendFn[fn] = true
+					}
+				}
+			}
+		}
+	}
+	for _, fn := range p.Funcs {
+		if !srcFunc(fn) || recvNamed(fn) != r.HeadWriter {
+			continue
+		}
+		for _, b := range fn.Blocks {
+			for _, ins := range b.Instrs {
+				w, ok := ins.(*ssa.Call)
+				if !ok || calleeName(w.Common()) != "(*"+pkgMessage+".Writer).Write" {
+					continue
+				}
+				h, loop := innermostLoop(b)
+				if loop == nil {
+					continue
+				}
+				ob := Ob{Rule: "R11", Inst: "L4:" + funcLabel(fn) + ":publish-loop", Props: []string{"C08", "C11", "C01"}, Pos: p.at(w), Func: funcLabel(fn), Nontrivial: true}
+				var bad []string
+				// (i) the index item is written in the same iteration: every path from the record write
+				// back to the loop header passes (*index.Writer).Write
+				idxWrite := isFunc("(*" + pkgIndex + ".Writer).Write")
+				isIdxWrite := func(i ssa.Instruction) bool {
+					c, ok := i.(*ssa.Call)
+					return ok && (calleeName(c.Common()) == "(*"+pkgIndex+".Writer).Write" || p.callReaches(c, idxWrite))
+				}
+				skip := false
+				seen := map[*ssa.BasicBlock]bool{}
+				var walk func(x *ssa.BasicBlock, from int)
+				walk = func(x *ssa.BasicBlock, from int) {
+					if skip {
+						return
+					}
+					for i := from; i < len(x.Instrs); i++ {
+						if isIdxWrite(x.Instrs[i]) {
+							return
+						}
+					}
+					for _, s := range x.Succs {
+						if s == h {
+							skip = true
+							return
+						}
+						if !loop[s] || seen[s] {
+							continue
+						}
+						seen[s] = true
+						walk(s, 0)
+					}
+				}
+				for i, bi := range b.Instrs {
+					if bi == ssa.Instruction(w) {
+						walk(b, i+1)
+					}
+				}
+				if skip {
+					bad = append(bad, "the next record of a batch can be written to the log before the index item of this one is written to the index file: a failure in the middle of a batch leaves records in the log that the index file never learns about")
+				}
+				// (ii) the in-memory append is outside the loop
+				for lb := range loop {
+					for _, li := range lb.Instrs {
+						if c, ok := li.(*ssa.Call); ok {
+							for _, g := range p.callees(c) {
+								if appendFn[g] {
+									bad = append(bad, p.at(c)+": the in-memory index is extended inside the batch loop: concurrent readers see a batch that is still being published partially")
+								}
+							}
+						}
+					}
+				}
+				if len(bad) > 0 {
+					ob.Status, ob.Msg, ob.Path = Violated, "a published batch is not indexed record by record on disk and all at once in memory", bad
+				} else {
+					ob.Status, ob.Msg = Discharged, "each iteration writes the record and then its index item; the in-memory index is extended once, after the loop"
+				}
+				obs = append(obs, ob)
+			}
+		}
+	}
+	return obs
+}
+
+// indexTimeSeed (L6): every loop that derives index items from a log starts the carried index
+// timestamp at 0, as its siblings and the appending writer of a fresh log do.
+func (p *Prog) indexTimeSeed() []Ob {
+	var obs []Ob
+	for _, cl := range p.copyLoops() {
+		if cl.loop == nil {
+			continue
+		}
+		for _, it := range cl.items {
+			if len(it.Call.Args) != 4 {
+				continue
+			}
+			phi, ok := canon(it.Call.Args[3]).(*ssa.Phi)
+			if !ok || phi.Block() != cl.header {
+				continue
+			}
+			ob := Ob{Rule: "R11", Inst: "L6:" + funcLabel(cl.fn) + ":index-time-seed", Props: []string{"C11"}, Pos: p.at(it), Func: funcLabel(cl.fn), Nontrivial: true}
+			okSeed := true
+			seed := ""
+			for i, e := range phi.Edges {
+				if cl.header.Dominates(cl.header.Preds[i]) {
+					continue // back edge
+				}
+				k, isK := constInt(e)
+				if !isK || k != 0 {
+					okSeed = false
+					seed = e.String()
+				}
+			}
+			if okSeed {
+				ob.Status, ob.Msg = Discharged, "the carried index timestamp starts at 0"
+			} else {
+				ob.Status, ob.Msg = Violated, "the carried index timestamp of this loop starts at "+seed+" while every sibling loop and the appending writer of a fresh log start at 0: for times before the epoch the index rebuilt here differs from the one that was published"
+			}
+			obs = append(obs, ob)
+		}
+	}
+	return obs
+}
+
+// rebuildUnderIndexLock (R16c): a segment reader rebuilds / loads its index file only while holding
+// its index lock exclusively (two concurrent first accesses would both append to the same file).
+func (p *Prog) rebuildUnderIndexLock() []Ob {
+	var obs []Ob
+	r := p.R
+	ls := p.LocksetCached()
+	idxWrite := isFunc(pkgIndex + ".Write")
+	n := 0
+	for _, fn := range p.Funcs {
+		if !srcFunc(fn) || recvNamed(fn) != r.SegReader {
+			continue
+		}
+		for _, b := range fn.Blocks {
+			for _, ins := range b.Instrs {
+				c, ok := ins.(*ssa.Call)
+				if !ok || !p.callReaches(c, idxWrite) {
+					continue
+				}
+				if g := c.Common().StaticCallee(); g != nil && recvNamed(g) == r.SegReader {
+					continue // judged inside
+				}
+				n++
+				ob := Ob{Rule: "R16", Inst: "c:rebuild-under-index-lock:" + funcLabel(fn), Props: []string{"C11", "C08"}, Pos: p.at(c), Func: funcLabel(fn), Nontrivial: true}
+				if ls.at[c][r.SRIndexMu] == modeW {
+					ob.Status, ob.Msg = Discharged, "the index file is (re)built with the reader's index lock held exclusively"
+				} else {
+					ob.Status, ob.Msg = Violated, "a call that can rebuild the segment's index file runs without the reader's index lock: concurrent first accesses each append a full copy to the same file"
+				}
+				obs = append(obs, ob)
+			}
+		}
+	}
+	if n == 0 {
+		obs = append(obs, Ob{Rule: "R16", Inst: "c:rebuild-under-index-lock", Props: []string{"C11", "C08"}, Pos: "-", Status: Undecided, Msg: "no segment reader method reaches index.Write"})
+	}
+	return obs
+}
